@@ -486,4 +486,141 @@ theorem lookup_name {t : SymTab} {symB strB : Bytes} (h : Wf t symB strB) (hv : 
 
 end TQSound
 
+/-! ### every section of a loaded object carries the object's class
+
+(`section_impl<T>` is instantiated for the file class; in the models `SecBuf.cls` stands for `T` and for the
+`elf_file.get_class()` tests of the accessors.)  Needed for truncated files, where `LoadedFrom` is not available. -/
+
+theorem decodeShdr_cls (c : Cls) (enc : Enc) (r : Bytes) (b : SecBuf) : (decodeShdr c enc r b).cls = b.cls := by
+  cases c <;> rfl
+
+theorem secLoad_cls (c : Cls) (enc : Enc) (tr : List Trans) (ls : LoadSt) (hdrOff : Int) (isLazy : Bool) (idx : Nat) :
+    (secLoad c enc tr ls hdrOff isLazy idx).2.cls = c := by
+  rw [secLoad_eq]
+  split
+  · rfl
+  · split
+    · show (secGetData c tr _ _).2.cls = c
+      rw [(secGetData_sameHdr c tr _ _).cls]
+      show (decodeShdr c enc _ _).cls = c
+      rw [decodeShdr_cls]; rfl
+    · show (decodeShdr c enc _ _).cls = c
+      rw [decodeShdr_cls]; rfl
+
+theorem loadSectionsLoop_cls (c : Cls) (enc : Enc) (tr : List Trans) (isLazy : Bool) (shoff : Int) (entsize : Nat) :
+    ∀ (n i : Nat) (ls : LoadSt) (acc : List SecBuf), (∀ b ∈ acc, b.cls = c) →
+      ∀ b ∈ (loadSectionsLoop c enc tr isLazy shoff entsize n i ls acc).2, b.cls = c := by
+  intro n
+  induction n with
+  | zero => intro i ls acc hacc b hb; exact hacc b (by simpa [loadSectionsLoop] using hb)
+  | succ n ih =>
+    intro i ls acc hacc
+    rw [loadSectionsLoop_succ]
+    apply ih
+    intro b hb
+    rcases List.mem_cons.mp hb with rfl | hb
+    · exact secLoad_cls c enc tr ls _ isLazy i
+    · exact hacc b hb
+
+theorem loadSecs0_cls (c : Cls) (enc : Enc) (tr : List Trans) (hdr : Bytes) (isLazy : Bool) (st : IStream) :
+    ∀ b ∈ (loadSecs0 c enc tr hdr isLazy st).2, b.cls = c := by
+  unfold loadSecs0
+  split
+  · intro b hb; cases hb
+  · exact loadSectionsLoop_cls c enc tr isLazy _ _ _ 0 _ [] (fun b hb => by cases hb)
+
+theorem loadSegsPhase_cls (o : Obj) (c : Cls) (enc : Enc) (hdr : Bytes) (isLazy : Bool) (ls : LoadSt)
+    (secs : List SecBuf) (hc : o.cls = c) (hsecs : ∀ b ∈ secs, b.cls = c) (r : LoadRes)
+    (h : loadSegsPhase o c enc hdr isLazy ls secs = .ok r) : ∀ b ∈ r.obj.secs, b.cls = r.obj.cls := by
+  unfold loadSegsPhase at h
+  split at h
+  · cases h; intro b hb; rw [hc]; exact hsecs b hb
+  · cases h; intro b hb; rw [hc]; exact hsecs b hb
+
+theorem loadNamesK_cls (c : Cls) (enc : Enc) (tr : List Trans) (hdr : Bytes) (ls : LoadSt)
+    (secs : List SecBuf) (k : LoadSt × List SecBuf → M LoadRes) (P : LoadRes → Prop)
+    (hk : ∀ ls secs, (∀ b ∈ secs, b.cls = c) → ∀ r, k (ls, secs) = .ok r → P r)
+    (hsecs : ∀ b ∈ secs, b.cls = c) (r : LoadRes) (h : loadNamesK c enc tr hdr ls secs k = .ok r) : P r := by
+  unfold loadNamesK at h
+  split at h
+  · exact hk ls secs hsecs r h
+  · split at h
+    · exact hk ls secs hsecs r h
+    · rename_i strtab hget
+      have hmem : strtab ∈ secs := List.mem_of_getElem? hget
+      cases hres : resolveNames (secGetData c tr ls strtab).2
+          (secs.set (Hdr.e_shstrndx c enc hdr).toNat (secGetData c tr ls strtab).2) with
+      | error e => rw [hres] at h; cases h
+      | ok secs' =>
+        rw [hres] at h
+        refine hk _ secs' ?_ r h
+        -- `resolveNames` only sets names
+        have hgen : ∀ (l l' : List SecBuf), resolveNames (secGetData c tr ls strtab).2 l = .ok l' →
+            (∀ b ∈ l, b.cls = c) → ∀ b ∈ l', b.cls = c := by
+          intro l
+          induction l with
+          | nil => intro l' e _ b hb; simp [resolveNames, pure, Except.pure] at e; subst e; cases hb
+          | cons x rest ih =>
+            intro l' e hl b hb
+            unfold resolveNames at e
+            cases hg : getString (secGetData c tr ls strtab).2 x.nameOff with
+            | error er => rw [hg] at e; cases e
+            | ok nm =>
+              rw [hg] at e
+              cases hr : resolveNames (secGetData c tr ls strtab).2 rest with
+              | error er => rw [hr] at e; cases nm <;> cases e
+              | ok rest' =>
+                rw [hr] at e
+                have hrest := ih rest' hr (fun b hb => hl b (List.mem_cons_of_mem _ hb))
+                cases nm with
+                | none =>
+                  simp only [bind, Except.bind, pure, Except.pure, Except.ok.injEq] at e
+                  subst e
+                  rcases List.mem_cons.mp hb with rfl | hb
+                  · exact hl _ (List.mem_cons_self)
+                  · exact hrest b hb
+                | some nmv =>
+                  simp only [bind, Except.bind, pure, Except.pure, Except.ok.injEq] at e
+                  subst e
+                  rcases List.mem_cons.mp hb with rfl | hb
+                  · exact hl x (List.mem_cons_self)
+                  · exact hrest b hb
+        apply hgen _ _ hres
+        intro b hb
+        rcases List.mem_or_eq_of_mem_set hb with h' | h'
+        · exact hsecs _ h'
+        · rw [h', (secGetData_sameHdr c tr ls strtab).cls]; exact hsecs _ hmem
+
+theorem loadAfterHdr_cls (o : Obj) (c : Cls) (enc : Enc) (hdr : Bytes) (isLazy : Bool) (st : IStream)
+    (hc : o.cls = c) (r : LoadRes) (h : loadAfterHdr o c enc hdr isLazy st = .ok r) :
+    ∀ b ∈ r.obj.secs, b.cls = r.obj.cls := by
+  unfold loadAfterHdr at h
+  have h2 := loadSecs0_cls c enc o.trans hdr isLazy st
+  split at h
+  · exact loadSegsPhase_cls o c enc hdr isLazy _ _ hc h2 r h
+  · exact loadNamesK_cls c enc o.trans hdr _ _ _ (fun r => ∀ b ∈ r.obj.secs, b.cls = r.obj.cls)
+      (fun ls secs hs r hr => loadSegsPhase_cls o c enc hdr isLazy ls secs hc hs r hr) h2 r h
+
+/-- **every section of the object `load` leaves carries the object's class** (any input, any outcome) -/
+theorem load_secs_cls (o : Obj) (st : IStream) (isLazy : Bool) (r : LoadRes) (h : load o st isLazy = .ok r) :
+    ∀ b ∈ r.obj.secs, b.cls = r.obj.cls := by
+  rw [load_eq] at h
+  dsimp only at h
+  have hfail : ∀ (o' : Obj) (st' : IStream), o'.secs = [] → (Except.ok (failRes o' st') : M LoadRes) = .ok r →
+      ∀ b ∈ r.obj.secs, b.cls = r.obj.cls := by
+    intro o' st' h1 e b hb
+    cases e
+    simp only [failRes, h1] at hb
+    cases hb
+  split at h
+  · exact hfail _ _ rfl h
+  split at h
+  · exact hfail _ _ rfl h
+  split at h
+  · exact hfail _ _ rfl h
+  · exact hfail _ _ rfl h
+  · split at h
+    · exact hfail _ _ rfl h
+    · exact loadAfterHdr_cls _ _ _ _ _ _ rfl r h
+
 end ElfioVerif.LoadedTables
